@@ -9,6 +9,7 @@ from vf import core, graph
 
 META = {
     'property_id': 'C06',
+    'confirm_by_replay': True,   # bin/check re-executes the stimulus of every violation before it is reported
     'level': 'model_checking',
     'technique': 'TLA+ spec of the controller FSM (MetadataFSM.tla: every Raft operation of fsm.go apply, snapshots that '
                  'hold references and are persisted later, restart = restore + replay with recovered=true + '
